@@ -5767,6 +5767,9 @@ def _fill_rests_within_measure(measure: Measure, part: Part) -> None:
     notes = np.array(
         list(part.iter_all(GenericNote, start_time, end_time, include_subclasses=True))
     )
+    if len(notes) == 0:
+        # no voice starts in this measure: there is nothing to fill
+        return
 
     # voc_staff is now transformed to only voice
     voc_staff = np.array([[n.voice, n.staff] for n in notes])
